@@ -139,6 +139,7 @@ def run(ctx):
     import prop_c06
     prop_c06.revision_dispatch(ctx, F)
     prop_c06.password_truncation(ctx, F)
+    prop_c06.revision_not_version(ctx, F)
     ca, ka = sibling(ctx, F, "encryption::encrypt_object", "encryption::decrypt_object", "object")
     ctx.floor("R-SIB", "byte constants of encrypt_object", len(ka), 4)
     for t in (b"XRef", b"Crypt", b"DecodeParms"):
@@ -250,6 +251,23 @@ def run(ctx):
     ctx.ob("R-ORDER", "owner-password-key|compute_file_encryption_key", bool(rc4),
            "the key derivation can reach the RC4 unwinding of O (Algorithm 7), the only way from the owner password to the user password", ck.where(),
            what="for revisions 2-4 the file key is derived by Algorithm 2 from whatever password is given; nothing on that path unwinds O (Algorithm 7): with the owner password decrypt() returns Ok and removes /Encrypt, but no string or stream is restored")
+    # ... and that way is taken whenever the password given is not the user password: the only conditions in front of the
+    # unwinding are the revision dispatch and the failed user authentication of the very password (no shortcut for an empty
+    # password, a length, a flag: the owner password may be any string, the empty one included)
+    import inv as _inv
+    rec = [c for c in ck.calls if c.local and c.cname.endswith("recover_user_password_r4")]
+    okr, extra = bool(rec), []
+    for c in rec:
+        for gd, tr in _inv.rendered_guards(ck, c.bb):
+            if re.search(r"\.revision\b", gd) or re.match(r"^discr\(", gd):
+                continue
+            if re.match(r"^is_err\(&?authenticate_user_password_r4\(", gd) and tr:
+                continue
+            if re.match(r"^is_ok\(&?authenticate_user_password_r4\(", gd) and not tr:
+                continue
+            extra.append(("" if tr else "!") + gd)
+    ctx.ob("R-ORDER", "owner-password-key|unconditional-recovery", okr and not extra, "the user password is retrieved from O whenever the given password fails the user authentication", ck.where(),
+           what="compute_file_encryption_key retrieves the user password from O only under an extra condition (%s): an owner password for which it does not hold opens the document with a key derived from the owner password itself" % extra)
     ctx.sample({"sibling": "encrypt_object <-> decrypt_object", "call kinds": len(ca), "constants": sorted(k.decode("latin1") for k in ka)})
 
 
